@@ -230,6 +230,43 @@ def judge_cut_effect(p, sm):
     return out, n, (int(dark.sum()), int((~dark).sum()))
 
 
+def judge_cut_history():
+    """one RegionGeomToO object: throw(times A) -> optical integral -> throw(times B, SAME number of kept events but
+    different sun/moon conditions) -> optical integral; each per-event column must equal a fresh object's."""
+    from nuspacesim.simulation.geometry.region_geometry import RegionGeomToO
+
+    _iers()
+    out = []
+    p = dict(ra=0.3, dec=math.radians(89.5), date="2022-11-16T06:00:00", T=86400.0, N=48, lat=math.radians(-9), lon=math.radians(10), alt=33.0, limb=1.5)
+    sm = {"sun_alt_cut": math.radians(-12), "moon_alt_cut": 0.0, "moon_min_phase_angle_cut": math.radians(90), "sun_moon_cuts": True}
+    cfg = mk(p["ra"], p["dec"], p["date"], p["T"], p["N"], p["lat"], p["lon"], p["alt"], p["limb"], sm=sm)
+    fr = np.arange(48) / 48.0
+    night = fr[(fr > 0.55) & (fr < 0.8)]
+    batches = [night, night - 0.5 + 1e-3, night, fr[:12], fr[12:24]]
+
+    def contrib(g, t):
+        g.throw(np.array(t, dtype=float))
+        n = len(g.pathLens())
+        rec = {}
+        if n == 0:
+            return b""
+        g.mcintegral(np.full(n, 100.0), np.full(n, math.cos(math.radians(1.5))), np.full(n, 0.5), 10.0, 1.0, 1.0, lenDec=np.zeros(n), method="Optical", store=lambda names, cols: rec.__setitem__("c", np.array(cols[0], dtype=float)))
+        return rec["c"].tobytes() + str(n).encode()
+
+    with warnings.catch_warnings():
+        warnings.simplefilter("ignore")
+        fresh = [contrib(RegionGeomToO(cfg), b) for b in batches]
+        n = 0
+        for seq in itertools.product(range(len(batches)), repeat=2):
+            g = RegionGeomToO(cfg)
+            for pos, k in enumerate(seq):
+                n += 1
+                if contrib(g, batches[k]) != fresh[k]:
+                    out.append(("cut_evaluated_at_each_event_time_after_rethrow", list(seq[: pos + 1]), "same as a fresh object", "differs"))
+                    break
+    return out, n
+
+
 def geometry_alphabet(tier):
     ras = [0.0, math.pi / 2, math.pi, 3 * math.pi / 2]
     decs = [-math.pi / 2, -math.pi / 4, 0.0, math.pi / 4, math.pi / 2]
@@ -335,6 +372,10 @@ def run(ctx):
             for c, e, o in v:
                 ctx.violation(c, {"kind": "effect", "p": p, "sm": sm}, e, o)
     ctx.cov["cut_effect_cases"] = nce
+    v, n = judge_cut_history()
+    ctx.tick(n, ("cut_history",))
+    for c, seq, e, o in v[:3]:
+        ctx.violation(c, {"kind": "cut_history", "seq": seq}, e, o)
 
 
 def replay(case):
@@ -345,6 +386,9 @@ def replay(case):
         return judge_geometry(case["p"])[0]
     if k == "dark":
         return judge_darksky(case["q"])[0]
+    if k == "cut_history":
+        v, _ = judge_cut_history()
+        return [(c, e, o) for c, seq, e, o in v if seq == case["seq"]]
     if k == "effect":
         return judge_cut_effect(case["p"], case["sm"])[0]
     return []
